@@ -113,6 +113,12 @@ def S(s):
   return core.strlit(s)
 
 
+def coq_str(s):
+  """A Python str as a Coq `string` literal (printable ASCII only)."""
+  assert all(32 <= ord(c) <= 126 for c in s), s
+  return '"%s"%%string' % s.replace('"', '""')
+
+
 def float_bits(x):
   return struct.unpack('>Q', struct.pack('>d', x))[0]
 
